@@ -820,6 +820,43 @@ func c09Tasks(tier string) []mc.Task {
 	}
 	ts = c09PairTasks(ts, "mmsteep", c09AlphaBin, 6, nil, steep)
 
+	// (iii'') longer sequences (a banded, blocked or vectorised fast path would only show there): for every pair of
+	// lengths (n, m) with n in 7..40 step 3 and m in {n-3, n, n+5}, a sequence of period 5 against a copy with a
+	// substitution every 7th and a deletion at one third, under 3 match/mismatch schemes and the matrix mode;
+	// judged by the same oracle (Gotoh dynamic program; no brute force at these lengths)
+	ts = append(ts, mc.Task{Name: "long-pairs", Run: func(c *mc.Ctx) {
+		o := &c09Oracle{}
+		for n := 7; n <= 40; n += 3 {
+			for _, m := range []int{n - 3, n, n + 5} {
+				a := make([]byte, n)
+				for i := range a {
+					a[i] = "ACGTA"[(i*3+i/5)%5]
+				}
+				var b []byte
+				for i := 0; len(b) < m; i++ {
+					x := a[i%n]
+					if i%7 == 3 {
+						x = "TGCA"[(i/7)%4]
+					}
+					if i == n/3 || i == n/3+1 {
+						continue
+					}
+					b = append(b, x)
+				}
+				s1, s2 := string(a), string(b)
+				for _, sc := range []c09Scheme{{1, -1, c09Gap{-10, -0.5}}, {2, -3, c09Gap{-5, -1}}, {5, -4, c09Gap{-4, -0.25}}} {
+					c09Check(c, o, c09Case{S1: s1, S2: s2, Mode: "mm", Match: sc.match, Mismatch: sc.mismatch, Open: sc.open, Extend: sc.extend})
+					c09Check(c, o, c09Case{S1: s2, S2: s1, Mode: "mm", Match: sc.match, Mismatch: sc.mismatch, Open: sc.open, Extend: sc.extend})
+				}
+				c09Check(c, o, c09Case{S1: s1, S2: s2, Mode: "matrix", Open: -10, Extend: -0.5})
+				c09Check(c, o, c09Case{S1: s1, S2: s2, Mode: "matrix", Open: -4, Extend: -1})
+			}
+			if c.Expired() {
+				return
+			}
+		}
+	}})
+
 	// (iv) DNAfull
 	dnaMax := 3
 	if thorough {
@@ -860,7 +897,7 @@ func init() {
 	mc.Register(&mc.Prop{
 		ID:    "C09",
 		Level: "exploration",
-		Rule: "(On every case: after the judged alignment another aligner aligns the swapped pair; the rows and the returned alignment of the first must read as before.) (Free-running complement under the race detector: 8 goroutines doing this property's operations on objects of their own must get the values the same work gives alone.) Command line: goalign sw on 8 pairs (nucleotide, protein, mixed case) with every subset of --match, --mismatch, --gap-open, --gap-extend given (4 value sets): the alignment written and the log (coordinates, length, score, counts) must be those of the library aligner configured the same way (substitution matrix unless --match or --mismatch is given). " + "bounded-exhaustive enumeration of align.NewPwAligner(s1,s2,ALIGN_ALGO_SW) with SetGapOpenScore/SetGapExtendScore always set (and SetScore in match/mismatch mode), then Alignment(); all pairs of length 1..6 over {A,C} also under 3 schemes with penalties beyond the defaults (30/-30/-12/-11, 20/-20/-25/-15, 30/-10/-11/-10.5) and the 8 non-binary schemes configured in the three setter orders (open-extend-scores, extend-open-scores, scores-extend-open); " +
+		Rule: "(Longer sequences: for lengths n = 7, 10, .., 40 and m = n-3, n, n+5 a periodic sequence against a copy with substitutions and a deletion, 3 match/mismatch schemes in both orders and the matrix mode with 2 gap settings, judged by the Gotoh oracle. On every case: after the judged alignment another aligner aligns the swapped pair; the rows and the returned alignment of the first must read as before.) (Free-running complement under the race detector: 8 goroutines doing this property's operations on objects of their own must get the values the same work gives alone.) Command line: goalign sw on 8 pairs (nucleotide, protein, mixed case) with every subset of --match, --mismatch, --gap-open, --gap-extend given (4 value sets): the alignment written and the log (coordinates, length, score, counts) must be those of the library aligner configured the same way (substitution matrix unless --match or --mismatch is given). " + "bounded-exhaustive enumeration of align.NewPwAligner(s1,s2,ALIGN_ALGO_SW) with SetGapOpenScore/SetGapExtendScore always set (and SetScore in match/mismatch mode), then Alignment(); all pairs of length 1..6 over {A,C} also under 3 schemes with penalties beyond the defaults (30/-30/-12/-11, 20/-20/-25/-15, 30/-10/-11/-10.5) and the 8 non-binary schemes configured in the three setter orders (open-extend-scores, extend-open-scores, scores-extend-open); " +
 			"on every case: rows (Seq1Ali/Seq2Ali and the returned Alignment) of equal length, no all-gap column, de-gapped rows = s[start..end] (0-based inclusive; an empty alignment has end = start-1), " +
 			"matches+mismatches+gaps = Length() = row length, gap count = gap columns, match/mismatch counts = identical/different residue pairs, inputs unchanged, no error, no panic; " +
 			"when the oracle optimum is > 0: MaxScore() = score of the returned rows (gap of length k costs open+(k-1)*extend) and MaxScore() = optimum of an independent three-state Gotoh local dynamic program, " +
